@@ -86,13 +86,19 @@ def validate_component(comp, strict=False):
     """
     # Check text fields for invalid characters
     for name, value in comp.items():
-        if isinstance(value, vText):
-            for c in _INVALID_CONTROL_CHARACTERS:
-                if c in value:
-                    yield "Invalid character {} in field {}".format(
-                        c.encode("unicode_escape"),
-                        name,
-                    )
+        # a property may occur several times; besides vText also the values of
+        # X- and other unknown properties (vUnknown) and categories are text
+        for v in value if isinstance(value, list) else [value]:
+            texts = v.cats if isinstance(v, vCategory) else [v]
+            for text in texts:
+                if not isinstance(text, str):
+                    continue
+                for c in _INVALID_CONTROL_CHARACTERS:
+                    if c in text:
+                        yield "Invalid character {} in field {}".format(
+                            c.encode("unicode_escape"),
+                            name,
+                        )
     if strict:
         for required in comp.required:
             try:
